@@ -804,7 +804,7 @@ theorem tie_fwdMustLoad : (fcallsOf fwdConfMustLoad).head? = some ⟨"Load", [.p
 /-- `getJsonUnmarshaler` hands the caller's whole option list to `NewUnmarshaler`; the jsonx entry points hand their
 decoder to `unmarshalUseNumber` together with the caller's target. -/
 theorem tie_fwdJsonInternals :
-    fcallsOf fwdGetJsonUnmarshaler = [⟨"NewUnmarshaler", [.other, .spread 0]⟩] ∧
+    fcallsOf fwdGetJsonUnmarshaler = [⟨"len", [.other]⟩, ⟨"NewUnmarshaler", [.other, .spread 0]⟩] ∧
     fcallsOf fwdJsonMap = [⟨"getJsonUnmarshaler(opts...).Unmarshal", [.param 0, .param 1]⟩] ∧
     fcallsOf fwdUnmJsonBytes = [⟨"jsonx.Unmarshal", [.param 0, .other]⟩, ⟨"unmarshaler.Unmarshal", [.other, .param 1]⟩] ∧
     fcallsOf fwdUnmJsonReader = [⟨"jsonx.UnmarshalFromReader", [.param 0, .other]⟩, ⟨"unmarshaler.Unmarshal", [.other, .param 1]⟩] ∧
@@ -813,5 +813,42 @@ theorem tie_fwdJsonInternals :
     (fcallsOf fwdXUnmarshalFromString).take 3 = [⟨"strings.NewReader", [.param 0]⟩, ⟨"json.NewDecoder", [.result 0]⟩, ⟨"unmarshalUseNumber", [.result 1, .param 1]⟩] ∧
     (fcallsOf fwdXUnmarshalFromReader).take 3 = [⟨"io.TeeReader", [.param 0, .other]⟩, ⟨"json.NewDecoder", [.result 0]⟩, ⟨"unmarshalUseNumber", [.result 1, .param 1]⟩] := by
   decide
+
+/-- the typed data flow of `conf.Load` (evaluation order; `o(&opt)` is the option loop): the file is read once; the
+extension of the SAME path, lower-cased, selects the loader; under `opt.env` the loader gets
+`[]byte(os.ExpandEnv(string(content)))`, otherwise `content` itself; the target `v` goes to the loader unchanged. -/
+theorem tie_fwdLoad : fcallsOf fwdConfLoad =
+    [⟨"os.ReadFile", [.param 0]⟩, ⟨"path.Ext", [.param 0]⟩, ⟨"strings.ToLower", [.result 1]⟩,
+     ⟨"fmt.Errorf", [.other, .param 0]⟩, ⟨"o", [.other]⟩,
+     ⟨"string", [.result 0]⟩, ⟨"os.ExpandEnv", [.result 5]⟩, ⟨"[]byte", [.result 6]⟩, ⟨"loader", [.result 7, .param 1]⟩,
+     ⟨"loader", [.result 0, .param 1]⟩, ⟨"validate", [.param 1]⟩] := by decide
+
+/-- SEMANTIC form (`loadContent`): for ALL arguments and callee behaviours, what the two `loader` calls receive. -/
+theorem tie_fwdLoad_sem {α : Type} (sem : String → List α → α) (file v dflt : α) (opts : List α) :
+    (runFwdAux sem [file, v] opts dflt [] (fcallsOf fwdConfLoad))[8]?
+      = some (sem "loader" [sem "[]byte" [sem "os.ExpandEnv" [sem "string" [sem "os.ReadFile" [file]]]], v]) ∧
+    (runFwdAux sem [file, v] opts dflt [] (fcallsOf fwdConfLoad))[9]?
+      = some (sem "loader" [sem "os.ReadFile" [file], v]) ∧
+    (runFwdAux sem [file, v] opts dflt [] (fcallsOf fwdConfLoad))[2]?
+      = some (sem "strings.ToLower" [sem "path.Ext" [file]]) := by
+  refine ⟨?_, ?_, ?_⟩ <;> simp [runFwdAux, evalArgs, fcallsOf, fargOf, fwdConfLoad]
+
+/-- `LoadFromJsonBytes` (`loadTreeWithO`): the info of the TARGET's type, the generic tree of the CONTENT, the tree
+lowered with that info, then `UnmarshalJsonMap(lowered, v, WithCanonicalKeyFunc(..))`, then `validate(v)`. -/
+theorem tie_fwdLoadJson : fcallsOf fwdConfLoadJson =
+    [⟨"reflect.TypeOf", [.param 1]⟩, ⟨"buildFieldsInfo", [.result 0, .other]⟩, ⟨"jsonx.Unmarshal", [.param 0, .other]⟩,
+     ⟨"toLowerCaseKeyMap", [.other, .result 1]⟩, ⟨"mapping.WithCanonicalKeyFunc", [.other]⟩,
+     ⟨"mapping.UnmarshalJsonMap", [.result 3, .param 1, .result 4]⟩, ⟨"validate", [.param 1]⟩] := by decide
+
+theorem tie_fwdLoadJson_sem {α : Type} (sem : String → List α → α) (content v dflt : α) :
+    (runFwdAux sem [content, v] [] dflt [] (fcallsOf fwdConfLoadJson))[5]?
+      = some (sem "mapping.UnmarshalJsonMap"
+          [sem "toLowerCaseKeyMap" [dflt, sem "buildFieldsInfo" [sem "reflect.TypeOf" [v], dflt]], v,
+           sem "mapping.WithCanonicalKeyFunc" [dflt]]) ∧
+    (runFwdAux sem [content, v] [] dflt [] (fcallsOf fwdConfLoadJson))[2]? = some (sem "jsonx.Unmarshal" [content, dflt]) := by
+  refine ⟨?_, ?_⟩ <;> simp [runFwdAux, evalArgs, fcallsOf, fargOf, fwdConfLoadJson]
+
+/-- `FillDefault(v)` = the package's default-filling unmarshaller on an EMPTY map literal and the caller's target. -/
+theorem tie_fwdFillDefault : fcallsOf fwdConfFillDefault = [⟨"fillDefaultUnmarshaler.Unmarshal", [.other, .param 0]⟩] := by decide
 
 end GoZero.C17.Tie
